@@ -541,7 +541,12 @@ def dispatch_tokens(ctx: Ctx) -> Dict[str, Tuple[Optional[str], int]]:
     ev = rewrite_eval(ctx)
     out: Dict[str, Tuple[Optional[str], int]] = {}
     for dname, arity in (('_simplify_unary_operator', 1), ('_simplify_binary_operator', 2), ('_simplify_arithmetic', 2)):
-        fi = ctx.model.func('hpl.rewrite', dname, 'R7')
+        try:
+            fi = ctx.model.func('hpl.rewrite', dname, 'R7')
+        except AnalysisError:
+            if dname == '_simplify_arithmetic':
+                continue    # the intermediate dispatcher is optional: its arms may be written out in the binary dispatcher
+            raise
         pc = ctx.ev.ann_class(fi.node.args.args[0].annotation, fi.module)
         p = Sym(fi.params()[0], pc.name if pc else None)
         for o in ev.run(fi, {fi.params()[0]: p}):
@@ -568,7 +573,12 @@ def dispatch_token_sets(ctx: Ctx) -> Dict[str, frozenset]:
     sets = kind_token_sets(ctx)
     out: Dict[str, frozenset] = {}
     for dname in ('_simplify_unary_operator', '_simplify_binary_operator', '_simplify_arithmetic'):
-        fi = ctx.model.func('hpl.rewrite', dname, 'R7')
+        try:
+            fi = ctx.model.func('hpl.rewrite', dname, 'R7')
+        except AnalysisError:
+            if dname == '_simplify_arithmetic':
+                continue    # the intermediate dispatcher is optional: its arms may be written out in the binary dispatcher
+            raise
         pc = ctx.ev.ann_class(fi.node.args.args[0].annotation, fi.module)
         p = Sym(fi.params()[0], pc.name if pc else None)
         for o in ev.run(fi, {fi.params()[0]: p}):
